@@ -20,6 +20,7 @@ import (
 func init() {
 	register("sysu", sysuStream)
 	register("kf.C03-a", kfC03a)
+	register("kf.C04-a", kfC04a)
 }
 
 var (
@@ -486,6 +487,17 @@ func sysuStream(g *hx.Gen, id int) hx.Case {
 	case 3:
 		c.Req.Header = append(c.Req.Header, [2]string{"richie-routing-secret", "s0"}, [2]string{"Richie-Originating-IP", "9.9.9.9"})
 	}
+	if g.Chance(6) {
+		// the client names the routing headers as connection options (RFC 9110 7.6.1: "hop-by-hop" by the
+		// client's say-so): whatever the proxy does with such a header, the secret check sees what was sent
+		c.Req.Header = append(c.Req.Header, [2]string{"Connection", g.Pick([]string{"Richie-Routing-Secret", "close, richie-routing-secret", "Richie-Request-ID, Richie-Originating-IP", "RICHIE-ROUTING-SECRET, Richie-Request-ID"})})
+		if g.Chance(70) {
+			c.Req.Header = append(c.Req.Header, [2]string{"Richie-Routing-Secret", g.Pick([]string{"guess", "s1", "s0", "wrong"})})
+		}
+		if g.Chance(40) {
+			c.Req.Header = append(c.Req.Header, [2]string{"Richie-Request-ID", "client-id"})
+		}
+	}
 	if c.Req.Method == "POST" || c.Req.Method == "PUT" || g.Chance(10) {
 		c.Req.Body = genBody(g)
 		c.Req.Chunked = len(c.Req.Body) > 0 && g.Chance(35)
@@ -512,6 +524,19 @@ func sysuStream(g *hx.Gen, id int) hx.Case {
 		c.Script = append(c.Script, e)
 	}
 	return c.run("sysu", id)
+}
+
+// C04-a witnesses: two Richie-Routing-Secret lines, the first valid, a later one unknown
+func kfC04a(g *hx.Gen, id int) hx.Case {
+	main := hx.RuleSpec{Path: "/m/*", Dest: "http://d0.test/$1", Internal: true}
+	hdr := [][2]string{{"Richie-Routing-Secret", "s1"}, {"Richie-Routing-Secret", "wrong"}}
+	if id%2 == 1 {
+		hdr = [][2]string{{"richie-routing-secret", "s0"}, {"Accept", "*/*"}, {"Richie-Routing-Secret", "guess"}, {"Richie-Routing-Secret", "s1"}}
+	}
+	c := sysCase{Rules: []hx.RuleSpec{main}, Secrets: []string{"s1", "s0"}, Retries: 0,
+		Req: SysReq{Method: "GET", Target: "/m/a", Host: "h1.test", Header: hdr}}
+	c.Script = []ScriptEntry{{Host: "d0.test", Resp: sysx.OriginResp{Status: 200, Body: []byte("ok"), ReadErrAt: -1}}}
+	return c.run("kf.C04-a", id)
 }
 
 // C03-a witnesses: retry_rule fallback after a 4xx / unreachable main destination, with a body
